@@ -20,6 +20,10 @@ Inductive case :=
    finding C09-impersonation-trust-domain-unchecked) *)
 | CreateTd (id : N) (iptab : list (string * (bool * list N))) (env : auth_env) (rs : list auth_result)
          (na : option node_auth) (cfg : ca_cfg) (rq : request) (t0 t1 : Z) (obs : observed)
+(* one real Server + ClusterNodeAuthorizer kept alive over a sequence of pod events (applied through
+   the fake kube client, each awaited on the authorizer's informer) and impersonation requests sent
+   through CreateCertificate; [obs] = granted? per request, in order *)
+| History (id : N) (trusted : list (string * string)) (ops : list hop) (obs : list bool)
 (* JwtAuthenticator.Authenticate with a token carrying these claims; [verified] = the token is one
    go-oidc's verifier accepts (right issuer and key, not expired) *)
 | Oidc (id : N) (verified : bool) (td : string) (audiences : list string) (sub : string) (aud : aud_claim) (obs : authn_out)
@@ -39,7 +43,7 @@ Inductive case :=
 
 Definition case_id c :=
   match c with
-  | Create id _ _ _ _ _ _ _ _ _ => id | CreateTd id _ _ _ _ _ _ _ _ _ => id | Oidc id _ _ _ _ _ _ => id | KubeJwt id _ _ _ _ => id
+  | Create id _ _ _ _ _ _ _ _ _ => id | CreateTd id _ _ _ _ _ _ _ _ _ => id | History id _ _ _ => id | Oidc id _ _ _ _ _ _ => id | KubeJwt id _ _ _ _ => id
   | CertAuth id _ _ => id | Xfcc id _ _ _ _ _ => id | NewCA id _ _ _ _ _ => id
   | San id _ _ _ => id | ParseId id _ _ => id
   end.
@@ -129,6 +133,7 @@ Definition model_ok (c : case) : bool :=
   match c with
   | Create _ iptab env rs na cfg rq t0 t1 obs => create_model_ok iptab env rs na cfg rq t0 t1 obs
   | CreateTd _ _ _ _ _ _ _ _ _ _ => true
+  | History _ trusted ops obs => list_eqb Bool.eqb (run_history trusted [] ops) obs
   | Oidc _ verified td auds sub aud obs =>
       authn_eqb (if verified then oidc_authenticate td auds sub aud else AErr) obs
   | KubeJwt _ td found tr obs => authn_eqb (kube_jwt_authenticate td found tr) obs
@@ -255,12 +260,36 @@ Definition create_prop_part (part : N) iptab env rs na cfg rq (t0 t1 : Z) (obs :
   | OResult _ => true
   end.
 
+(* history oracle, written from the property: walking the events, every GRANTED request names a
+   (namespace, service account) that a pod on the caller's node has at that moment (and the caller is
+   a trusted node account whose pod is known with this uid and service account) *)
+Fixpoint spec_history (trusted : list (string * string)) (ps : list pod) (ops : list hop) (obs : list bool) : bool :=
+  match ops with
+  | [] => match obs with [] => true | _ => false end
+  | HReq k imp :: r =>
+      match obs with
+      | [] => false
+      | granted :: obs' =>
+          (if granted
+           then spec_may_impersonate (Some {| na_trusted := trusted; na_clusters := [("c1", ps)] |})
+                  {| rq_csr := {| csr_st := CsrOk; csr_cn := ""; csr_key := 0; csr_sans := []; csr_wants_ca := false; csr_extra_exts := 0 |};
+                     rq_validity := 0; rq_metadata := []; rq_cluster_ids := ["c1"] |}
+                  {| identities := []; kinfo := k |} imp
+           else true) && spec_history trusted ps r obs'
+      end
+  | HAdd p :: r =>
+      spec_history trusted (p :: filter (fun q => negb (String.eqb (p_name q) (p_name p) && String.eqb (p_ns q) (p_ns p))) ps) r obs
+  | HDel n ns :: r =>
+      spec_history trusted (filter (fun q => negb (String.eqb (p_name q) n && String.eqb (p_ns q) ns)) ps) r obs
+  end.
+
 Definition authn_no_panic (o : authn_out) : bool := match o with APanic => false | _ => true end.
 
 Definition prop_ok (c : case) : bool :=
   match c with
   | Create _ iptab env rs na cfg rq t0 t1 obs => create_prop_part 1 iptab env rs na cfg rq t0 t1 obs
   | CreateTd _ iptab env rs na cfg rq t0 t1 obs => create_prop_part 2 iptab env rs na cfg rq t0 t1 obs
+  | History _ trusted ops obs => spec_history trusted [] ops obs
   | Oidc _ verified td auds sub aud obs =>
       authn_no_panic obs &&
       match obs with
